@@ -77,6 +77,12 @@ Definition ok_chain (c : flavour * bool * list mw * option (list mw) * list even
 
 Definition mismatches_chain := mismatches ok_chain.
 
+(** the observed request was preceded by [warm] identical requests on the same mounted handler *)
+Definition ok_chain_hist (c : flavour * bool * list mw * option (list mw) * nat * list event) : bool :=
+  let '(fw, ftl, ms, strict, warm, obs) := c in
+  list_eqb event_eqb (nth_request fw ftl ms strict warm) obs.
+Definition mismatches_chain_hist := mismatches ok_chain_hist.
+
 (** C03 *)
 From V Require Import Model.Route.
 
